@@ -8,6 +8,8 @@ CONSTANTS
   Marker = 9
   NoStamp = {}
   Reverse = FALSE
+  CellNs = {0, 32768}
+  CellRead = "unsigned"
 INVARIANTS
   SameType
   CarriedRestored
